@@ -58,7 +58,10 @@ def mutate(rng, cs, other, is_bytes):
         cs[i] = rng.choice([10, 32, 45, 61, 123, 125, 44, 60, 62, 42, 91, 93, 64, 40, 41, 36, 35, 58, 47, 46])
         return cs
     i = rng.randrange(n + 1)
-    return cs[:i] + [rng.choice([97, 48, 32, 47])] * rng.choice([300, 5000, 65536]) + cs[i:]
+    ch = rng.choice([97, 48, 32, 47])
+    # a run of 65536 DIGITS costs the model minutes (unbounded Z arithmetic on the digit run is quadratic): digit runs stop
+    # at 5000 here; one 65536-digit version runs on the implementation only (see the fixed cases)
+    return cs[:i] + [ch] * rng.choice([300, 5000, 65536] if ch != 48 else [300, 5000]) + cs[i:]
 
 
 def generate(rng, tier):
@@ -103,6 +106,8 @@ def generate(rng, tier):
     big = "9" * 40
     cases.append(Case("pat.match", [enc("p>=" + big), enc("p-" + big + "nb" + big)], meta={"nt": True, "src": "big"}))
     cases.append(Case("sum.parse", [enc("SIZE_PKG=" + big + "\n")], meta={"nt": True, "src": "big"}))
+    cases.append(Case("pat.match", [enc("p<3" + "0" * 65536 + "rc1"), enc("p-3" + "1" * 65536)], mop="", meta={"nt": True, "src": "big"}))
+    cases.append(Case("pat.match", [enc("p<3" + "0" * 4000 + "rc1"), enc("p-3" + "1" * 4000)], meta={"nt": True, "src": "big"}))
     cases.append(Case("pl.parse", [enc(b"@name " + b"x" * 70000 + b"\n" + b" " * 70000)], meta={"nt": True, "src": "big"}))
     cases.append(Case("di.parse", [enc(b"SHA1 (" + b"n" * 70000 + b") = " + b"a" * 70000)], meta={"nt": True, "src": "big"}))
     cases.append(Case("pl.parse", [enc(b"@name " + b"x" * 3000 + b"\n" + b" " * 3000)], meta={"nt": True, "src": "big"}))
